@@ -107,8 +107,9 @@ def col_class(c):
 def diff_results(a, b):
     """differences between two result snapshots, tolerance per column class (design_notes/C07.md):
     state (p, T, norm factors, powers): rtol 1e-8 + atol 1e-9;
-    flow (mdot, vdot, v, Re): atol 1e-6 * max|column| (a branch with zero pressure difference has dp ~ m^2, so the
-      Newton iteration determines m there only to ~sqrt(tolerance)); lambda: only where Re > 1."""
+    flow (mdot, vdot, v, Re): atol 1e-6 * max|column| + floor (1e-7 kg/s, 1e-5 m/s, Re 1): a branch with zero pressure
+      difference has dp ~ m^2, so the Newton iteration determines m there only to ~sqrt(tolerance);
+    lambda: only where Re > 1 (64/Re of a numerically-zero flow is noise)."""
     diffs = []
     for t in sorted(set(a) | set(b)):
         if t not in a or t not in b:
@@ -137,8 +138,9 @@ def diff_results(a, b):
                     continue
                 if cls == "lambda" and re_a is not None and (re_a[p] is None or abs(re_a[p]) <= 1.0):
                     continue
+                floor = 1.0 if c.startswith("reynolds") else 1e-5 if c.startswith("v_") else 1e-7
                 tol = (1e-9 + 1e-8 * max(abs(x), abs(y))) if cls == "state" else \
-                    (1e-6 * scale + 1e-9) if cls == "flow" else 1e-6 * max(abs(x), abs(y))
+                    (1e-6 * scale + floor) if cls == "flow" else 1e-6 * max(abs(x), abs(y))
                 if not (x == y or abs(x - y) <= tol):
                     diffs.append((t, c, a[t]["index"][p], "%r vs %r" % (x, y)))
     return diffs
